@@ -110,7 +110,7 @@ fn new_report<const N: u8>(self_: Option<RecG<N>>, kind: RKind, location: ValueP
         s.decision += 1;
         let t = s.next_tok;
         s.next_tok += 1;
-        (id, d, s.script.answer(d), t)
+        (id, d, s.script.answer_for(d, trace::Ask::Report { tag: kind.tag(), ety: N }), t)
     });
     holding.push(id);
     trace::log(Event::Report(Report { id, ety: N, kind, loc, self_tok, self_holding, decision, cont, out_tok }));
@@ -148,7 +148,7 @@ impl<const A: u8, const B: u8> MergeWithError<RecG<B>> for RecG<A> {
             s.decision += 1;
             let t = s.next_tok;
             s.next_tok += 1;
-            (d, s.script.answer(d), t)
+            (d, s.script.answer_for(d, trace::Ask::Merge { ety: A }), t)
         });
         trace::log(Event::Merge(Merge {
             ety: A,
